@@ -231,7 +231,7 @@ PENDING_FINDINGS = []
 def finding_matcher(f, case):
     """narrow syntactic predicate of the former finding K1: ARGS mode, function without **kwargs, no bound self (method
     call that is looked at), and a keyword or a declared Parameter whose name is no parameter of the function"""
-    if f.get('matcher', {}).get('id') != 'args_mode_name_outside_signature':
+    if 'calls' in case or f.get('matcher', {}).get('id') != 'args_mode_name_outside_signature':
         return False
     signames = {sp['n'] for sp in case['sig']['params']}
     outside = [n for n, _ in case['kwargs'] if n not in signames] + [p['n'] for p in case['params'] if p['n'] not in signames]
@@ -518,6 +518,83 @@ def gen_request(rng, sig):
     return rq
 
 
+
+# --------------------------------------------------------------------------- shared Parameter objects, calls in sequence
+def gen_shared(rng, maxchain):
+    """The SAME Parameter objects decorate two or three functions with different signature defaults (modes, strictness,
+    declaration orders); the functions are called one after the other, omitting / passing arguments, external values
+    present / absent.  History independence: every call is judged like a single call of a freshly decorated function."""
+    names = rng.sample(range(1, 7), rng.choice([1, 2, 2, 3]))
+    params = []
+    for n in names:
+        p = gen_param(rng, n, maxchain, benign=rng.random() < 0.75)
+        if rng.random() < 0.7:                   # optional without own default: the signature default has to apply
+            p['required'], p['default'] = False, None
+        params.append(p)
+    funcs = []
+    for _ in range(rng.choice([2, 2, 3])):
+        order = list(names)
+        rng.shuffle(order)
+        n_def = rng.choice([len(order), len(order), len(order), max(0, len(order) - 1)])
+        sps = []
+        for i, nm in enumerate(order):
+            d = None
+            if i >= len(order) - n_def:
+                d = rng.choice([[1, rng.choice(INT_POOL), 0], [1, rng.choice([10, 1000, 7]), 0], list(NONE), [3, rng.choice(INT_POOL), 0],
+                                [4, rng.choice([0, 2, 5]), 0]])
+            sps.append({'n': nm, 'kwonly': False, 'default': d})
+        decl = list(range(len(params)))
+        rng.shuffle(decl)
+        funcs.append({'sig': {'params': sps, 'varkw': rng.random() < 0.05, 'method': False}, 'mode': rng.randrange(3),
+                      'strict': rng.random() < 0.5, 'ignore': rng.random() < 0.04, 'async': rng.random() < 0.25, 'order': decl})
+    calls = []
+    for _ in range(rng.randint(3, 6)):
+        fi = rng.randrange(len(funcs))
+        sig = funcs[fi]['sig']
+        asg = {}
+        for sp in sig['params']:
+            need = sp['default'] is None
+            if rng.random() < (0.9 if need else 0.4):
+                asg[sp['n']] = rng.choice([[1, rng.choice([0, 2, 3, 8]), 0], [3, rng.choice([0, 2, 8]), 0], gen_val(rng)])
+        j = rng.randint(0, max_prefix(sig, asg))
+        rest = [n for n in asg if n not in [sp['n'] for sp in sig['params']][:j]]
+        rng.shuffle(rest)
+        args, kwargs = make_call(sig, asg, j, rest)
+        ext = []
+        for p in params:
+            if p['kind'] == 'hext':
+                r = rng.random()
+                ext.append({'state': 'absent'} if r < 0.55 else {'state': 'value', 'val': gen_val(rng)})
+            elif p['kind'] == 'env':
+                ext.append({'state': 'absent'} if rng.random() < 0.55 else {'state': 'value', 'val': gen_val(rng, strings_only=True)})
+            else:
+                ext.append(None)
+        calls.append({'f': fi, 'args': args, 'kwargs': kwargs, 'ext': ext})
+    return {'params': params, 'funcs': funcs, 'calls': calls, 'tag': 'shared'}
+
+
+def expand_shared(sc):
+    """the calls of a sequence as ordinary single cases (what each call has to look like on its own)"""
+    out = []
+    for k, call in enumerate(sc['calls']):
+        f = sc['funcs'][call['f']]
+        ps = []
+        for i in f['order']:
+            p = dict(sc['params'][i])
+            p['ext'] = call['ext'][i]
+            ps.append(p)
+        c = base_case(f['sig'], ps, f['mode'], f['strict'], f['ignore'], f['async'], call['args'], call['kwargs'], tag='shared')
+        c['step'] = k
+        out.append(c)
+    return out
+
+
+def shared_prefix(sc, k):
+    c = json.loads(json.dumps(sc))
+    c['calls'] = c['calls'][:k + 1]
+    return c
+
+
 # --------------------------------------------------------------------------- driver
 def features(c, m):
     f = {'n_named': len(named(c['sig'])), 'n_declared': len(c['params']), 'mode': MODES[c['mode']],
@@ -526,6 +603,8 @@ def features(c, m):
 
 
 def size(c):
+    if 'calls' in c:
+        return 100 + 10 * len(c['calls']) + len(c['params']) + sum(len(p['chain']) for p in c['params'])
     return (len(c['sig']['params']) + len(c['params']) + sum(len(p['chain']) for p in c['params']) + len(c['args']) + len(c['kwargs'])
             + (3 if c.get('request') else 0))
 
@@ -546,8 +625,22 @@ def run_checks(pid, tier, seed, replay, gen_cases, props, rule, group_check=Fals
         return not prop
     ck.replay_known_findings(still_fails)
 
-    cases = gen_cases(ck.rng, tier, ck.scale()) if replay is None else [replay['case']]
-    impl = ck.run_impl('w_validate', cases, timeout=900)
+    units = gen_cases(ck.rng, tier, ck.scale()) if replay is None else [replay['case']]
+    unit_impl = ck.run_impl('w_validate', units, timeout=900)
+    # sequences over shared Parameter objects: every call becomes a single case for model / specification; a failing
+    # call is reported with the sequence up to and including it
+    cases, impl, origin = [], [], []
+    n_seq = 0
+    for u, ui in zip(units, unit_impl):
+        if 'calls' in u:
+            n_seq += 1
+            steps = ui.get('steps') if isinstance(ui, dict) else None
+            for k, c in enumerate(expand_shared(u)):
+                cases.append(c)
+                impl.append(steps[k] if steps and k < len(steps) else ui)
+                origin.append(shared_prefix(u, k))
+        else:
+            cases.append(u); impl.append(ui); origin.append(u)
     raw = ck.coq_eval(PRE, [coq_case(c) for c in cases], chunk=250) if ck.model_ok else [None] * len(cases)
     model = []
     for r in raw:
@@ -562,9 +655,9 @@ def run_checks(pid, tier, seed, replay, gen_cases, props, rule, group_check=Fals
         hist[h][str(k)] = hist[h].get(str(k), 0) + 1
     disagreements = []
     groups = {}
-    for c, i, m in zip(cases, impl, model):
+    for c, i, m, org in zip(cases, impl, model, origin):
         key = json.dumps([c['sig'], c['params'], c['mode'], c['strict'], c['ignore'], c['async'], c['request'], c['args'], c['kwargs']],
-                         sort_keys=True)
+                         sort_keys=True) if org is c else json.dumps(org, sort_keys=True)
         nontrivial = bool(c['params']) and (len(c['args']) + len(c['kwargs']) >= 1 or any(p['ext'] for p in c['params']))
         ck.note_case(key, nontrivial=nontrivial)
         corr, prop, what, kind = judge(c, i, m)
@@ -594,9 +687,12 @@ def run_checks(pid, tier, seed, replay, gen_cases, props, rule, group_check=Fals
             ck.traces_validated += 1
         if not prop:
             bump('violation_kind', kind)
-            ck.violation(what, c, stream='validate', extra={'impl': i, 'model': m, 'class': kind}, matcher=finding_matcher)
+            if org is not c:
+                what = f'call {c["step"] + 1} of a sequence over shared Parameter objects (functions decorated with the same Parameter objects, called one after the other) does not end like the same call on its own: ' + what
+            ck.violation(what, org, stream='validate' if org is c else 'validate-shared', extra={'impl': i, 'model': m, 'class': kind, 'single_case': c},
+                         matcher=finding_matcher)
         elif not corr:
-            disagreements.append({'case': c, 'impl': i, 'model': m, 'what': what})
+            disagreements.append({'case': org, 'impl': i, 'model': m, 'what': what, 'single_case': c})
         if group_check and i and 'error' not in i and m and m['domain'] == 2 and 'group' in c and c.get('tag') == 'matrix':
             groups.setdefault((c['group'], c['mode']), []).append((c, i))
     # C13, independent of the specification: within a group (same configuration and named assignment, same mode)
@@ -624,7 +720,7 @@ def run_checks(pid, tier, seed, replay, gen_cases, props, rule, group_check=Fals
         floor = 0.5 * len(cases)
         ck.oblige('generator:non-degenerate', 'correspondence', len(ck.nontrivial) >= 0.3 * len(cases) and
                   hist['domain'].get('2', 0) >= floor, f'distinct non-trivial {len(ck.nontrivial)} of {len(cases)}, in-domain {hist["domain"].get("2", 0)}')
-    ck.coverage.update({'histograms': hist, 'disagreements': len(disagreements), 'cases': len(cases)})
+    ck.coverage.update({'histograms': hist, 'disagreements': len(disagreements), 'cases': len(cases), 'shared_parameter_sequences': n_seq})
     trip = list(zip(cases, impl, model))
     ck.samples = [{'case': c, 'impl': i, 'model': m} for c, i, m in trip[:2] + trip[-2:]]
     ck.assumptions = [
@@ -632,6 +728,8 @@ def run_checks(pid, tier, seed, replay, gen_cases, props, rule, group_check=Fals
         'validators are harness-defined subclasses of pedantic.Validator (deterministic, journal their input)',
         'functions without *args and without positional-only parameters; exception messages are not compared',
         'self is passed as the implicit first positional argument of a bound method only (never by keyword, never a Parameter name)',
+        'history independence is checked on sequences of calls of 2-3 functions decorated with the SAME Parameter objects: every call must end '
+        'like the same call of a freshly decorated function (the model is a pure function of declaration and call)',
         'Flask is installed (IS_FLASK_INSTALLED); the strict-JSON clause at the end of _wrapper_content is compared with the model only',
     ]
     return ck.finish(
